@@ -22,7 +22,7 @@ from hypothesis import strategies as st
 
 import glom
 import glom.core
-from glom import Match, Glommer, T
+from glom import Match, Glommer, T, Coalesce
 from glom.grouping import Group
 
 from ..runner import Sub, Mismatch, HarnessBug
@@ -74,11 +74,24 @@ def build_entry(kind, r):
         return [1, 2], c07.build(r['tree']), kw
     if kind == 'slotpath':
         return tg.build(r['target']).obj, r['path'], {}
+    if kind == 'scopelit':
+        # a container LITERAL in argument position is a template: every evaluation builds a new container from it
+        lit = tg.build(r['lit']).obj
+        if r['form'] == 'svar':
+            return 'tgt', (glom.S(v=lit), {'prev': Coalesce(glom.S.v['last'], default='<none>'), 'cur': glom.A.v['last']}), {}
+        if r['form'] == 'default':
+            return {}, Coalesce('items', default=lit), {}
+        return {}, ('nope', 'nope'), {'default': lit}
     raise ValueError(kind)
 
 
 def gen_entry(draw):
-    kind = draw(st.sampled_from(['c03', 'c03', 'c01', 'c09', 'c10', 'c14', 'c14', 'c16', 'c17', 'c07', 'c07', 'slotpath', 'slotpath']))
+    kind = draw(st.sampled_from(['c03', 'c03', 'c01', 'c09', 'c10', 'c14', 'c14', 'c16', 'c17', 'c07', 'c07', 'slotpath', 'slotpath', 'scopelit']))
+    if kind == 'scopelit':
+        form = draw(st.sampled_from(['svar', 'svar', 'default']))
+        lits = [['dict', []], ['dict', [['seed', ['i', 0]]]]] if form == 'svar' else \
+            [['dict', []], ['list', []], ['list', [['i', 1]]], ['dict', [['seed', ['i', 0]]]], ['set', []]]
+        return {'kind': kind, 'recipe': {'form': form, 'lit': draw(st.sampled_from(lits))}}
     if kind == 'slotpath':
         # attribute objects WITHOUT an instance __dict__ (a subclass of a slot-only class): a Glommer registration for
         # the base class decides their 'get' handler
@@ -277,6 +290,16 @@ def check(recipe, ctx):
             if resp['outcome'] != got:
                 raise Mismatch('history-dependent', '%s: outcome %r, but %r when evaluated first in a pristine process '
                                '(PATH_STAR=%r, %d Glommer registrations)' % (where, got, resp['outcome'], star, gregs if via_glommer else 0))
+            # ---- a literal in argument position is never handed out itself
+            if entry['kind'] == 'scopelit' and 'v' in holder:
+                ctx.label('scope-literal')
+                v = holder['v']
+                mine = getattr(spec.spec if type(spec) is glom.Spec else spec, 'default', None) if entry['recipe']['form'] == 'default' else None
+                if mine is not None and v is mine:
+                    raise Mismatch('result-aliases-spec', '%s: the result is the container literal held by the spec' % where)
+                if entry['recipe']['form'] == 'default' and isinstance(v, (list, dict, set)):
+                    # what the caller does with the result is the caller's business: the next evaluation starts afresh
+                    (v.append if isinstance(v, list) else v.add if isinstance(v, set) else (lambda x: v.__setitem__(x, x)))('caller-wrote-this')
             # ---- fresh result containers on re-use of one spec object
             if reuse and not via_spec and 'v' in holder and isinstance(holder['v'], (list, dict)) \
                     and isinstance(spec, (dict, list)):
@@ -297,5 +320,5 @@ def check(recipe, ctx):
 
 SUBS = [
     Sub('history', check, gen=gen, quick=1600, thorough=4000,
-        floors={'toggle': 0.2, 'flood-small': 0.15, 'flood-big': 0.05, 'glommer-register': 0.2, 'shape-greg-sandwich': 0.08, 'shape-toggle-sandwich': 0.08}),
+        floors={'toggle': 0.2, 'flood-small': 0.07, 'flood-big': 0.04, 'glommer-register': 0.12, 'shape-greg-sandwich': 0.03, 'shape-toggle-sandwich': 0.04, 'scope-literal': 0.06}),
 ]
